@@ -17,9 +17,9 @@ SPEC = {
              "when the type is composite (tuple/array) or a range probe; distinct = distinct (type, value, back-end, version)."),
     "assumptions": ["algosdk.abi is the ARC-4 reference codec", "reference AVM (vlib/avm.py) semantics, calibrated by setup gates"],
     "min_evaluations": {"quick": 3000, "thorough": 40000},
-    "must_reach": ["encode_ok", "backend_main", "backend_sub_frame", "backend_sub_scratch", "range_py_rejected", "range_rt_failed",
+    "must_reach": ["encode_ok", "descriptor_ok", "backend_main", "backend_sub_frame", "backend_sub_scratch", "range_py_rejected", "range_rt_failed",
                    "meta_checked"],
-    "shard_timeout": {"quick": 900, "thorough": 7200},
+    "shard_timeout": {"quick": 2400, "thorough": 14400},
 }
 
 
@@ -228,6 +228,43 @@ def range_probe(pt, acc, rng):
         acc.violation("range_rt_fit_wrong", case, "%s.set(expr=%d) at v%d: status=%s logs=%r" % (tname, fit, version, r.status, r.logs))
 
 
+def descriptor_probe(pt, acc, rng):
+    """Every road to a TypeSpec must lead to the same ARC-4 type: from an algosdk type, from a type string, from a method signature,
+    from the spec's own annotation, and back to algosdk.  Shapes include the lengths at which one type's layout coincides with
+    another's (byte[32] / uint8[32] / address, byte[1] / byte, bool[8] / byte)."""
+    SPECIAL = ["byte[32]", "uint8[32]", "bool[32]", "byte[31]", "byte[33]", "byte[32][]", "byte[32][2]", "(byte[32],uint64)", "address", "address[]",
+               "byte[1]", "bool[8]", "byte[]", "uint8[]", "string", "(byte[32])", "byte[64]", "(string,byte[32],bool)", "uint64[32]", "address[32]"]
+    ts_list = SPECIAL + [abigen.rand_type(rng, maxdepth=3) for _ in range(12)]
+    for tstr in ts_list:
+        st = abigen.sdk(tstr)
+        case = {"probe": "descriptor", "type": tstr}
+        acc.evaluations += 1
+        try:
+            roads = {"from_algosdk": pt.abi.type_spec_from_algosdk(st), "direct": abigen.direct_spec(pt, st)}
+            args, ret = pt.abi.type_specs_from_signature("m(%s,uint8)%s" % (tstr, tstr))
+            roads["from_signature_arg"], roads["from_signature_ret"] = args[0], ret
+            try:
+                roads["from_annotation"] = pt.abi.type_spec_from_annotation(roads["direct"].annotation_type())
+            except TypeError:
+                acc.counters["descriptor_no_annotation"] += 1  # tuples of more than five members have no annotation spelling
+            for road, ts in roads.items():
+                acc.counters["descriptor_roads"] += 1
+                if str(ts) != str(st):
+                    acc.violation("type_string", dict(case, road=road), "%s: str(spec)=%r via %s, reference %r" % (tstr, str(ts), road, str(st)))
+                elif ts.is_dynamic() != st.is_dynamic() or (not st.is_dynamic() and ts.byte_length_static() != st.byte_len()):
+                    acc.violation("byte_length_static", dict(case, road=road), "%s via %s: layout descriptor differs from the reference" % (tstr, road))
+                if ts != roads["direct"]:
+                    acc.counters["descriptor_spec_objects_unequal"] += 1  # same ARC-4 type, different spec object: not a violation of C06
+                back = pt.abi.algosdk_from_type_spec(ts)
+                if back != st:
+                    acc.violation("type_string", dict(case, road=road + ">algosdk"), "%s: algosdk_from_type_spec gives %s" % (tstr, back))
+            if ret is None or len(args) != 2 or str(args[1]) != "uint8":
+                acc.violation("type_string", case, "type_specs_from_signature mis-parsed m(%s,uint8)%s" % (tstr, tstr))
+            acc.counters["descriptor_ok"] += 1
+        except Exception as e:
+            acc.violation("meta_exception", case, "%s: %s %s" % (tstr, type(e).__name__, str(e)[:200]))
+
+
 def gen_case(rng, shapes, i, tier):
     boundary = False
     if shapes and i < len(shapes):
@@ -260,6 +297,8 @@ def run_shard(shard):
         c = shard["replay"]
         if c.get("probe") == "range":
             range_probe(pt, acc, rng_for(0, "replay"))
+        elif c.get("probe") == "descriptor":
+            descriptor_probe(pt, acc, rng_for(0, "replay"))
         else:
             check_case(pt, acc, c)
         return acc.result()
@@ -277,6 +316,8 @@ def run_shard(shard):
     for i in range(total):
         if i % 12 == 0:
             range_probe(pt, acc, rng)
+        if i % 100 == 0:
+            descriptor_probe(pt, acc, rng)
         check_case(pt, acc, gen_case(rng, mine, i, shard["tier"]))
     return acc.result()
 
